@@ -60,6 +60,25 @@ def listDir (w : World) (p : String) : List String :=
 
 end World
 
+/-! ### the byte-array file specification -/
+
+/-- contents and initial position after `open(mode)` given the existing contents (if any);
+`none` = the file must exist (modes r, r+) -/
+def openData (existing : Option (List UInt8)) (mode : Nat) : Option (List UInt8 × Nat) :=
+  if (mode == 0 || mode == 3) && existing.isNone then none
+  else
+    let data := if mode == 1 || mode == 4 then [] else existing.getD []
+    some (data, if World.isAppend mode then data.length else 0)
+
+/-- write `b` at offset `at_`: a gap beyond the end is zero-filled, bytes outside the window stay -/
+def writeAt (data : List UInt8) (at_ : Nat) (b : List UInt8) : List UInt8 :=
+  let padded := if at_ > data.length then data ++ List.replicate (at_ - data.length) 0 else data
+  padded.take at_ ++ b ++ padded.drop (at_ + b.length)
+
+/-- truncate / zero-extend to `sz` bytes -/
+def truncTo (data : List UInt8) (sz : Nat) : List UInt8 :=
+  if sz ≤ data.length then data.take sz else data ++ List.replicate (sz - data.length) 0
+
 /-- failure of a world operation -/
 inductive WErr where
   | os (errno : Int)        -- OSError with an errno
@@ -88,11 +107,12 @@ def fileOp (w : World) (h : Nat) (op : WOp) : Except WErr (Val × World) :=
     | .fwrite _ _ b =>
       if hd.closed then .error .value
       else if !canWrite hd.mode then .error .value
+      else if b.isEmpty then
+        -- a zero-length write changes nothing (append modes still move to the end first)
+        .ok (.int 0, setH { hd with pos := if isAppend hd.mode then data.length else hd.pos } w)
       else
         let at_ := if isAppend hd.mode then data.length else hd.pos
-        let padded := if at_ > data.length then data ++ List.replicate (at_ - data.length) 0 else data
-        let newData := padded.take at_ ++ b ++ padded.drop (at_ + b.length)
-        .ok (.int b.length, setH { hd with pos := at_ + b.length } (setFile w hd.path newData))
+        .ok (.int b.length, setH { hd with pos := at_ + b.length } (setFile w hd.path (writeAt data at_ b)))
     | .ftell _ _ =>
       if hd.closed then .error .value else .ok (.int hd.pos, w)
     | .fseek _ _ off whence =>
@@ -110,9 +130,7 @@ def fileOp (w : World) (h : Nat) (op : WOp) : Except WErr (Val × World) :=
         if size ≥ 2 ^ 63 ∨ size < -(2 ^ 63) then .error .value     -- OverflowError
         else if size < 0 then .error (.os 22)
         else
-          let sz := size.toNat
-          let newData := if sz ≤ data.length then data.take sz else data ++ List.replicate (sz - data.length) 0
-          .ok (.int size, setFile w hd.path newData)
+          .ok (.int size, setFile w hd.path (truncTo data size.toNat))
     | _ => .error (.unmodelled "not a file operation")
 
 open World in
@@ -126,13 +144,10 @@ def openFile (w : World) (path : String) (mode : Nat) : Except WErr (Nat × Worl
   else if !(isDir w parent) then
     (if (getFile w parent).isSome then .error (.os 20) else .error (.os 2))   -- ENOTDIR / ENOENT
   else
-    let existing := getFile w p
-    if (mode == 0 || mode == 3) && existing.isNone then .error (.os 2)   -- ENOENT
-    else
-      let w1 := if mode == 1 || mode == 4 then setFile w p []
-                else if existing.isNone then setFile w p [] else w
-      let size := ((getFile w1 p).getD []).length
-      let pos := if isAppend mode then size else 0
+    match openData (getFile w p) mode with
+    | none => .error (.os 2)   -- ENOENT
+    | some (data, pos) =>
+      let w1 := setFile w p data
       .ok (w1.handles.size, { w1 with handles := w1.handles.push ⟨p, mode, pos, false⟩ })
 
 /-! ### module search (`_search_file_from_literal`, `_matches_literal`) -/
